@@ -79,7 +79,7 @@ def finiteEnds (s : SrcCons) : List Int :=
 
 /-- `c04 <signed argument of format_range_annotations> <constraints are sizes> ( cons* ) <observed attr>`
     ↦ `<model attr> <verdict>` -/
-def handle : List Sexp → String
+def judge (strict : Bool) : List Sexp → String
   | [signedArg, sizeTy, .list cs, obs] =>
     match asBool signedArg, asBool sizeTy, cs.mapM parseCons, parseAttr obs with
     | some signedArg, some sizeTy, some cs, some obs =>
@@ -108,14 +108,22 @@ def handle : List Sexp → String
           ((cs.zip groups).all fun (s, g) => s.allExcept || denoteB g v) && !obsIv.memB v
         let errs : List String :=
           (if excluded.isEmpty then [] else [s!"excludes-permitted-value:{excluded.head!}"]) ++
+          (if !strict then [] else
           (if obsIv == eff || (obs.isNone && eff == base) then [] else [s!"bounds:{showOptInt obsIv.lo}..{showOptInt obsIv.hi}:expected:{showOptInt eff.lo}..{showOptInt eff.hi}"]) ++
           -- no annotation is emitted for an unbounded constraint: extensibility is then not observable
           (if obsExt == extSpec || (obs.isNone && eff == base) then [] else [s!"extensible:{obsExt}:expected:{extSpec}"]) ++
-          (match obs with | some a => if a.isSize == isSize then [] else ["size-vs-value"] | none => [])
+          (match obs with | some a => if a.isSize == isSize then [] else ["size-vs-value"] | none => []))
         if errs.isEmpty then s!"{modelS} ok" else
         let classes := (cs.flatMap classesOf).eraseDups
         s!"{modelS} bad:{if classes.isEmpty then "unclassified" else "+".intercalate classes}:{"/".intercalate errs}"
     | _, _, _, _ => "bad-request"
   | _ => "bad-request"
+
+def handle : List Sexp → String := judge true
+
+/-- `c04sound …`: the same request, judged for the one clause "never excludes a permitted value" only.
+    Used for operands the fold does not look into (contained subtypes, written here as the range they
+    stand for): the emitted bound may be looser than the effective constraint, never tighter. -/
+def handleSound : List Sexp → String := judge false
 
 end Driver.C04
